@@ -41,6 +41,46 @@ mod proofs {
         let tvo = |x: usize| if x == 1 { Some(true) } else if x == 0 { Some(false) } else { None };
         assert_eq!(Term(a).compare_inf(&Term(b)), tvo(a) == tvo(b));
     }
+    // ---- the outlined std expressions (rule O): their assumed "textbook" contracts, proved over the full domain
+    #[kani::proof]
+    fn outlined_min_max() {
+        let a: usize = kani::any(); let b: usize = kani::any();
+        assert_eq!(a.min(b), if a <= b { a } else { b });
+        assert_eq!(std::cmp::max(a, b), if a >= b { a } else { b });
+        assert_eq!(std::cmp::min(a, b), if a <= b { a } else { b });
+    }
+    #[kani::proof]
+    #[kani::unwind(8)]
+    fn outlined_pow2() {
+        let e: u32 = kani::any();
+        kani::assume(e < 64);
+        assert_eq!(2usize.pow(e), 1usize << e);
+    }
+    #[kani::proof]
+    fn outlined_then_some_and_result_and() {
+        let c: bool = kani::any(); let x: usize = kani::any();
+        assert_eq!(c.then_some(x), if c { Some(x) } else { None });
+        let a: Result<u8, u8> = if kani::any() { Ok(kani::any()) } else { Err(kani::any()) };
+        let b: Result<u16, u8> = if kani::any() { Ok(kani::any()) } else { Err(kani::any()) };
+        assert_eq!(a.and(b), match a { Ok(_) => b, Err(e) => Err(e) });
+    }
+    #[kani::proof]
+    fn outlined_conversions() {
+        let x: usize = kani::any();
+        let r: Result<u32, _> = x.try_into();
+        assert_eq!(r.is_ok(), x <= u32::MAX as usize);
+        if let Ok(v) = r { assert_eq!(v as usize, x); }
+        let y: u64 = kani::any();
+        let q: Result<usize, _> = y.try_into();
+        assert!(q.is_ok() && q.unwrap() as u64 == y);           // 64-bit target
+        assert!(usize::try_from(y).is_ok() && usize::try_from(y).unwrap() as u64 == y);
+    }
+    #[kani::proof]
+    fn no_inf_inconsistency_truth_table() {
+        let a: usize = kani::any(); let b: usize = kani::any();
+        let tvo = |x: usize| if x == 1 { Some(true) } else if x == 0 { Some(false) } else { None };
+        assert_eq!(Term(a).no_inf_inconsistency(&Term(b)), tvo(a) == tvo(b) || tvo(a).is_none());
+    }
     #[kani::proof]
     fn model_counts() {
         let c: usize = kani::any(); let m: usize = kani::any();
